@@ -106,6 +106,8 @@ Section Proj.
     | BAuto xs :: r => if ext then (c, v, true)
                        else let '(v', rr) := autos_cv xs v in
                             if rr then (v', v', true) else items_cv ext r v' v'
+    | BTry xs :: r => if ext then items_cv ext r c v
+                      else let '(v', _) := autos_cv xs v in items_cv ext r v' v'
     end.
   Definition step_cv (ext:bool) (sp:step) (c v:X) : X * X * bool :=
     let '(c1, v1, r2) := items_cv ext (s_body sp) c v in
@@ -164,7 +166,7 @@ Section Proj.
     (pC s', pV s', r) = items_cv (negb (s_al s)) items (pC s) (pV s) /\
     G s' /\ Q s' /\ s_sa s' = true /\ s_al s' = s_al s.
   Proof.
-    induction items as [|[x|xs|] items IH]; intros s HG HQ Hsa; simpl; auto.
+    induction items as [|[x|xs| |ys] items IH]; intros s HG HQ Hsa; simpl; auto.
     - destruct (exec_ddl_like (stmt_isddl x) (AEff (stmt_eff x)) s I HG HQ) as (E1 & E2 & E3 & E4 & E5 & E6).
       specialize (IH _ E3 E4 E5). destruct (run_items k items _) as [s' r].
       destruct IH as (I1 & I2 & I3 & I4 & I5). rewrite E1, E2, E6 in I1. repeat split; auto; congruence.
@@ -177,6 +179,14 @@ Section Proj.
           destruct IH as (I1 & I2 & I3 & I4 & I5). rewrite B1, B1', B4 in I1. simpl in I1.
           repeat split; auto; congruence.
       + destruct B1 as [-> ->]. repeat split; auto.
+    - pose proof (block_spec ys s HG Hsa) as B. destruct (autocommit_block k ys s) as [s1 r1].
+      destruct B as (B1 & B2 & B3 & B4). destruct (s_al s) eqn:Hal; simpl.
+      + destruct (autos_cv ys (pV s)) as [v' rr]. destruct B1 as (B1 & B1' & _).
+        assert (Q1 : Q s1) by (intros _; congruence).
+        specialize (IH s1 B2 Q1 B3). destruct (run_items k items s1) as [s' r].
+        destruct IH as (I1 & I2 & I3 & I4 & I5). rewrite B1, B1', B4 in I1. simpl in I1.
+        repeat split; auto; congruence.
+      + destruct B1 as [-> _]. specialize (IH s HG HQ Hsa). rewrite Hal in IH. simpl in IH. exact IH.
   Qed.
 
   Lemma inner_spec sp s : G s -> Q s -> s_sa s = true ->
@@ -373,13 +383,16 @@ Section Abs.
     snd (autos_cv xs v) = autos_raise xs /\ (autos_raise xs = false -> fst (autos_cv xs v) = fold_stmts (astmts xs) v).
   Proof. induction xs as [|[x|] xs IH]; intros v; simpl; auto. split; [reflexivity|discriminate]. Qed.
 
+  Lemma autos_cv_run xs : forall v, fst (autos_cv xs v) = fold_stmts (autos_run xs) v.
+  Proof. induction xs as [|[x|] xs IH]; intros v; simpl; auto. Qed.
+
   Lemma items_cv_spec ext items : forall c v,
     let '(c1, v1, r) := items_cv ext items c v in
     r = items_raise ext items /\
-    (r = false -> v1 = body_f items v) /\
+    (r = false -> ext = false \/ try_free items = true -> v1 = body_f items v) /\
     (enters_auto ext items = false -> c1 = c).
   Proof.
-    induction items as [|[x|xs|] items IH]; intros c v; simpl; auto.
+    induction items as [|[x|xs| |ys] items IH]; intros c v; simpl; auto.
     - specialize (IH c (f (AEff (stmt_eff x)) v)). destruct (items_cv ext items c _) as [[c1 v1] r]. exact IH.
     - destruct ext; simpl.
       + repeat split; auto; discriminate.
@@ -387,24 +400,32 @@ Section Abs.
         destruct (autos_raise xs) eqn:Ea; simpl.
         * repeat split; auto; discriminate.
         * specialize (IH v' v'). destruct (items_cv false items v' v') as [[c1 v1] r]. destruct IH as (I1 & I2 & I3).
-          repeat split; auto; try discriminate. intros Hr. rewrite (I2 Hr), (A2 eq_refl).
+          repeat split; auto; try discriminate. intros Hr _. rewrite (I2 Hr (or_introl eq_refl)), (A2 eq_refl).
           unfold body_f, body_stmts, fold_stmts. cbn [flat_map item_stmts]. rewrite fold_left_app. reflexivity.
     - repeat split; auto; discriminate.
+    - destruct ext; simpl.
+      + specialize (IH c v). destruct (items_cv true items c v) as [[c1 v1] r]. destruct IH as (I1 & I2 & I3).
+        repeat split; auto. intros _ [H|H]; discriminate.
+      + pose proof (autos_cv_run ys v) as A. destruct (autos_cv ys v) as [v' rr]. simpl in A.
+        specialize (IH v' v'). destruct (items_cv false items v' v') as [[c1 v1] r]. destruct IH as (I1 & I2 & I3).
+        repeat split; auto; try discriminate. intros Hr _. rewrite (I2 Hr (or_introl eq_refl)), A.
+        unfold body_f, body_stmts, fold_stmts. cbn [flat_map item_stmts]. rewrite fold_left_app. reflexivity.
   Qed.
 
   Lemma step_cv_spec ext sp c v :
     let '(c1, v1, r) := step_cv ext sp c v in
-    r = step_raises ext sp /\ (r = false -> v1 = step_f sp v) /\ (enters_auto ext (s_body sp) = false -> c1 = c).
+    r = step_raises ext sp /\ (r = false -> ext = false \/ try_free (s_body sp) = true -> v1 = step_f sp v) /\
+    (enters_auto ext (s_body sp) = false -> c1 = c).
   Proof.
     unfold step_cv, step_raises. pose proof (items_cv_spec ext (s_body sp) c v) as H.
     destruct (items_cv ext (s_body sp) c v) as [[c1 v1] r2]. destruct H as (H1 & H2 & H3). subst r2.
     destruct (items_raise ext (s_body sp)); simpl.
     - repeat split; auto; discriminate.
-    - repeat split; auto. intros _. unfold step_f. rewrite (H2 eq_refl). reflexivity.
+    - repeat split; auto. intros _ Ht. unfold step_f. rewrite (H2 eq_refl Ht). reflexivity.
   Qed.
 
   Lemma enters_auto_ext items : enters_auto true items = false.
-  Proof. induction items as [|[x|xs|] items IH]; simpl; auto. Qed.
+  Proof. induction items as [|[x|xs| |ys] items IH]; simpl; auto. Qed.
 
   Definition cnt (ext:bool) (steps:list step) : nat := match fidx ext steps with Some j => j | None => length steps end.
 
@@ -423,7 +444,7 @@ Section Abs.
                         enters_auto false (s_body sp0) = false).
       { intros j sp0 Hj Hn. apply (Hne (S j) sp0); simpl; rewrite ?Er, ?Hj; auto. }
       specialize (IH v1 v1 Hne'). destruct (proxy_cv steps v1 v1) as [[c' v'] r]. destruct IH as (I1 & I2).
-      rewrite (S2 eq_refl) in I2.
+      rewrite (S2 eq_refl (or_introl eq_refl)) in I2.
       destruct (fidx false steps) as [j|]; simpl in *; split; auto.
       + destruct j; simpl; auto.
       + destruct (length steps) eqn:El; simpl; auto; try (destruct steps; [reflexivity|discriminate]).
@@ -433,7 +454,7 @@ Section Abs.
   Lemma null_cv_spec ext steps : forall c v,
     let '(c', v', r) := null_cv ext steps c v in
     r = is_some (fidx ext steps) /\
-    (r = false -> v' = steps_f steps v) /\
+    (r = false -> ext = false \/ forallb (fun sp => try_free (s_body sp)) steps = true -> v' = steps_f steps v) /\
     ((ext = true \/ none_enters steps = true) -> c' = c).
   Proof.
     induction steps as [|sp steps IH]; intros c v; simpl; auto.
@@ -446,9 +467,14 @@ Section Abs.
     - repeat split; auto; try discriminate. intros [H|H]; apply Hc1; auto.
       apply andb_true_iff in H as [H _]. auto.
     - specialize (IH c1 v1). destruct (null_cv ext steps c1 v1) as [[c' v'] r]. destruct IH as (I1 & I2 & I3).
-      rewrite (S2 eq_refl) in I2. repeat split.
+      repeat split.
       + destruct (fidx ext steps); auto.
-      + auto.
+      + intros Hr Ht.
+        assert (T1 : ext = false \/ try_free (s_body sp) = true).
+        { destruct Ht as [Ht|Ht]; auto. apply andb_true_iff in Ht as [Ht _]. auto. }
+        assert (T2 : ext = false \/ forallb (fun sp => try_free (s_body sp)) steps = true).
+        { destruct Ht as [Ht|Ht]; auto. apply andb_true_iff in Ht as [_ Ht]. auto. }
+        rewrite (I2 Hr T2), (S2 eq_refl T1). reflexivity.
       + intros H. rewrite I3, Hc1; auto.
         * destruct H as [H|H]; auto. apply andb_true_iff in H as [H _]. auto.
         * destruct H as [H|H]; auto. apply andb_true_iff in H as [_ H].
@@ -467,9 +493,10 @@ Lemma rows_autos xs v : autos_cv _ f_rows xs v = (v, autos_raise xs).
 Proof. induction xs as [|[x|] xs IH]; simpl; auto. Qed.
 Lemma rows_items ext items : forall c v,
   items_cv _ f_rows ext items c v = (if enters_auto ext items then v else c, v, items_raise ext items).
-Proof. induction items as [|[x|xs|] items IH]; intros c v; simpl; auto.
-  destruct ext; simpl; auto. rewrite rows_autos. destruct (autos_raise xs); simpl; auto.
-  rewrite IH. destruct (enters_auto false items); reflexivity. Qed.
+Proof. induction items as [|[x|xs| |ys] items IH]; intros c v; simpl; auto.
+  - destruct ext; simpl; auto. rewrite rows_autos. destruct (autos_raise xs); simpl; auto.
+    rewrite IH. destruct (enters_auto false items); reflexivity.
+  - destruct ext; simpl; auto. rewrite rows_autos, IH. destruct (enters_auto false items); reflexivity. Qed.
 Lemma rows_vops vs x : vops_f _ f_rows vs x = fold_left (fun l v => apply_vop v l) vs x.
 Proof. reflexivity. Qed.
 Lemma rows_step ext sp c v :
@@ -608,15 +635,16 @@ Lemma tx_thm i : i_kind i = TxDDL -> no_partial_commit i = true ->
          | S _ => state_after (firstn (committed_count i) (i_steps i)) (with_version_table (i_db0 i))
          end.
 Proof.
-  intros Hk Hn. pose proof (txn_run_proj _ id apply_act TxDDL tx_Hpi tx_Hddl i Hk (consistent_tx i Hk)) as H.
-  unfold abs_run, committed_count, no_partial_commit, fail_index, one_txn in *. unfold id in H.
+  intros Hk Hn. unfold no_partial_commit in Hn. apply andb_true_iff in Hn as [Hx Hn].
+  pose proof (txn_run_proj _ id apply_act TxDDL tx_Hpi tx_Hddl i Hk (consistent_tx i Hk)) as H.
+  unfold abs_run, committed_count, fail_index, one_txn in *. unfold id in H.
   destruct (i_external i) eqn:He; simpl in H |- *.
   - pose proof (null_cv_spec _ apply_act true (i_steps i) (i_db0 i) (set_vt (i_db0 i))) as R.
     destruct (null_cv _ apply_act true (i_steps i) _ _) as [[c v] r]. destruct R as (R1 & R2 & R3).
     injection H as H1 H2. rewrite H1. clear H1 H2. rewrite R1 in *.
     destruct (fidx true (i_steps i)); simpl in *.
     + apply R3; auto.
-    + apply R2; auto.
+    + apply R2; auto. right. apply negb_true_iff in Hx. apply negb_false_iff in Hx. exact Hx.
   - destruct (i_tddl i && negb (i_per_mig i)); simpl in H |- *.
     + pose proof (null_cv_spec _ apply_act false (i_steps i) (i_db0 i) (set_vt (i_db0 i))) as R.
       destruct (null_cv _ apply_act false (i_steps i) _ _) as [[c v] r]. destruct R as (R1 & R2 & R3).
@@ -654,11 +682,11 @@ Theorem C04_main_thm i : consistent i = true -> C04_holds i (txn_run i).
 Proof.
   intros Hc. destruct (rows_thm i Hc) as [R1 R2]. unfold C04_holds. split; [exact R1|]. split; [apply count_le|]. split.
   - intros x. rewrite R2. tauto.
-  - intros Hk Hn. rewrite (tx_thm i Hk Hn).
+  - intros Hk Hn. rewrite (tx_thm i Hk Hn). unfold no_partial_commit in Hn. apply andb_true_iff in Hn as [_ Hn].
     destruct (one_txn i) eqn:Hone.
     + destruct (fail_index i) as [j|] eqn:Hf; simpl.
       * assert (Hz : committed_count i = 0).
-        { unfold committed_count, no_partial_commit, one_txn in *. rewrite Hf in *.
+        { unfold committed_count, one_txn in *. rewrite Hf in *.
           destruct (i_external i) eqn:He; auto. simpl in Hone. rewrite Hone in *.
           unfold fail_index in Hf. rewrite He in Hf. clear - Hn Hf.
           assert (G : forall steps idx acc k, none_enters steps = true -> fidx false steps = Some k ->
